@@ -1692,3 +1692,80 @@ Lemma F11_refuted :
   guards_fire w_decode w11_find repo_now w11_req = false /\
   serve_decision w_decode w11_find repo_now w11_req = serve_envoy w_decode w11_find repo_now w11_req.
 Proof. repeat split; vm_compute; reflexivity. Qed.
+
+(* ------------------------------------------------------------------ requests in flight at the same time *)
+
+(** every cache holds nothing or the decoding of its own request's body *)
+Definition flight_ok (bodyf : lreq -> value) (st : flight) : Prop :=
+  Forall (fun lc => snd lc = None \/ snd lc = Some (bodyf (fst lc))) st.
+
+Lemma read_body_spec bodyf i st :
+  flight_ok bodyf st ->
+  flight_ok bodyf (snd (read_body bodyf i st)) /\
+  map fst (snd (read_body bodyf i st)) = map fst st /\
+  fst (read_body bodyf i st) = option_map bodyf (nth_error (map fst st) i).
+Proof.
+  revert i. induction st as [|[L c] r IH]; intros i H.
+  - destruct i; repeat split; constructor.
+  - inversion H as [|x l Hx Hr]; subst. destruct i as [|j].
+    + cbn [read_body snd fst map nth_error option_map]. repeat split.
+      * constructor; [|exact Hr]. cbn [fst snd] in *. right.
+        destruct Hx as [Hx|Hx]; rewrite Hx; reflexivity.
+      * cbn [fst snd] in Hx. destruct Hx as [Hx|Hx]; rewrite Hx; reflexivity.
+    + cbn [read_body]. destruct (read_body bodyf j r) as [v r'] eqn:E.
+      destruct (IH j Hr) as (I1 & I2 & I3). rewrite E in I1, I2, I3. cbn [fst snd] in *.
+      repeat split.
+      * constructor; assumption.
+      * cbn [map]. rewrite I2. reflexivity.
+      * exact I3.
+Qed.
+
+(** C13, over time: whatever other requests are in flight and in whatever order the pipelines read,
+    a read of request i's body returns the decoding of request i's own body — at every entry point
+    ([bodyf] = the body accessor of that entry point) *)
+Theorem body_reads_stable bodyf ops st :
+  flight_ok bodyf st ->
+  Forall (fun iv => snd iv = option_map bodyf (nth_error (map fst st) (fst iv))) (run_reads bodyf ops st).
+Proof.
+  revert st. induction ops as [|i r IH]; intros st H; [constructor|].
+  cbn [run_reads]. destruct (read_body bodyf i st) as [v st'] eqn:E.
+  destruct (read_body_spec bodyf i st H) as (I1 & I2 & I3). rewrite E in I1, I2, I3. cbn [fst snd] in *.
+  constructor; [exact I3|]. rewrite <- I2. apply IH. exact I1.
+Qed.
+
+Lemma read_body_keys f i st : map fst (snd (read_body f i st)) = map fst st.
+Proof.
+  revert i. induction st as [|[L c] t IH]; intro i; [destruct i; reflexivity|].
+  destruct i as [|j]; cbn [read_body]; [reflexivity|].
+  specialize (IH j). destruct (read_body f j t) as [v t']. cbn [snd map fst] in *. rewrite IH. reflexivity.
+Qed.
+
+Lemma read_body_ext (f g : lreq -> value) i st :
+  (forall L, In L (map fst st) -> f L = g L) -> read_body f i st = read_body g i st.
+Proof.
+  revert i. induction st as [|[L c] t IH]; intros i H; [destruct i; reflexivity|].
+  destruct i as [|j]; cbn [read_body].
+  - rewrite (H L (or_introl eq_refl)). reflexivity.
+  - rewrite (IH j (fun L0 h => H L0 (or_intror h))). reflexivity.
+Qed.
+
+Lemma run_reads_ext (f g : lreq -> value) ops st :
+  (forall L, In L (map fst st) -> f L = g L) -> run_reads f ops st = run_reads g ops st.
+Proof.
+  revert st. induction ops as [|i r IH]; intros st H; [reflexivity|].
+  cbn [run_reads]. rewrite (read_body_ext f g i st H).
+  pose proof (read_body_keys g i st) as K. destruct (read_body g i st) as [v st']. cbn [snd] in K.
+  f_equal. apply IH. rewrite K. exact H.
+Qed.
+
+(** with the body accessors of the entry points, outside the body guards (F7, F9 as far as open): the
+    same values at the HTTP entry points and under Envoy, for every sequence of reads of the requests
+    in flight *)
+Corollary body_reads_agree decode fx ops (st : flight) :
+  Forall (fun L => wf_lreqb L = true /\ guard_query decode fx SOff [] L QBody = false) (map fst st) ->
+  run_reads (fun L => a_body (acc_http decode L)) ops st =
+  run_reads (fun L => a_body (acc_envoy decode fx (mk_envoy L))) ops st.
+Proof.
+  intro H. apply run_reads_ext. intros L HL. rewrite Forall_forall in H. destruct (H L HL) as [W G].
+  exact (answer_agree decode fx L SOff [] QBody W G).
+Qed.
